@@ -27,7 +27,7 @@ PROFILES = {
                    zones=ALL_ZONES, flush_vary=True,
                    len=(3, 60)),
     "C07": profile(scan=0.5, read_vs_getter=0.1, zones=ALL_ZONES,
-                   flush_vary=True, compact=0.3,
+                   flush_vary=True, compact=0.3, via_h=0.2,
                    alphabets=["plain", "hostile", "hostile", "reserved",
                               "fuzz"],
                    mix={"read": 0, "getter": 8}, reads_after=(1, 4)),
